@@ -38,6 +38,12 @@ static std::string stateFields(const Position& pos) {
     }
     s += ",\"pbb\":" + pbb + "],\"cbb\":" + cbb + "]";
     s += std::string(",\"occOk\":") + ((pos.occupiedBB() == (pos.whiteBB() | pos.blackBB())) ? "true" : "false");
+    {   // the library's own from-scratch material signature (built from piece counts) against the incrementally maintained one
+        MatId id;
+        for (int pc = Piece::WQUEEN; pc <= Piece::BPAWN; pc++)
+            if (pc != Piece::BKING) id.addPieceCnt(pc, BitBoard::bitCount(pos.pieceTypeBB((Piece::Type)pc)));
+        s += std::string(",\"matCntOk\":") + (id() == pos.materialId() ? "true" : "false");
+    }
     return s;
 }
 
